@@ -104,7 +104,7 @@ def snapshot(ab, roots, global_types, tagname):
         stores.setdefault(name, {})[i] = val
         sorts[name] = sort
 
-    todo, done = list(roots), set()
+    todo, done = list(roots) + list(ab.keep), set()        # objects known from an earlier snapshot stay in the heap
     glob_vals = {}
     for g, ty in global_types.items():
         cls, attr = g.split('.')
